@@ -3,8 +3,15 @@
 //! note: router fee arithmetic: compute_fees and PaymentPath::update_value_and_recompute_fees, paths of any length
 //! trusted: CandidateRouteHop is a stub {min, f} whose htlc_minimum_msat()/fees() accessors are external_body pure functions; NodeFeatures opaque; lifetimes dropped (R5)
 //! assume: fits(path, value): the ideal per-hop amounts and fee products fit 60 bits (established by callers via compute_max_final_value_contribution; LDK's unreachable!() relies on it); path_penalty_msat <= 2^60; at most 100 hops
+//! trusted: assume_specification for core::cmp::max / core::cmp::min (std definitions): present in every unit so that a change that introduces them is verified instead of being rejected by the tool
 use vstd::prelude::*;
 verus! {
+use vstd::std_specs::cmp::*;
+use core::cmp;
+pub assume_specification<T: core::cmp::Ord>[core::cmp::max::<T>](a: T, b: T) -> (r: T)
+    ensures T::obeys_cmp_spec() ==> r == (if b.cmp_spec(&a) == core::cmp::Ordering::Less { a } else { b });
+pub assume_specification<T: core::cmp::Ord>[core::cmp::min::<T>](a: T, b: T) -> (r: T)
+    ensures T::obeys_cmp_spec() ==> r == (if b.cmp_spec(&a) == core::cmp::Ordering::Less { b } else { a });
 pub struct CandidateRouteHop { pub min: u64, pub f: RoutingFees }
 impl CandidateRouteHop {
   #[verifier::external_body] pub fn htlc_minimum_msat(&self) -> (r: u64) ensures r == self.min { self.min }
